@@ -157,7 +157,9 @@ class VirtualClock:
 
     def time(self) -> float:
         self.calls += 1
-        frame = sys._getframe(1)
+        return self._time_for(sys._getframe(1))
+
+    def _time_for(self, frame) -> float:
         name = frame.f_code.co_name
         self.sites[name] = self.sites.get(name, 0) + 1
         if self.leap_at_call is not None and self.calls == self.leap_at_call:
@@ -245,6 +247,29 @@ class _Rng:
             base = list(x) if idx < n else list(reversed(x))
             r = idx % n
             x[:] = base[r:] + base[:r]
+
+
+class SwitchDec:
+    """A decision source whose target can be exchanged between executions, so
+    that the seams are installed once per worker instead of once per execution."""
+
+    def __init__(self) -> None:
+        self.cur: Optional[Decisions] = None
+
+    def pick(self, k: int, kind: str) -> int:
+        return self.cur.pick(k, kind)
+
+
+class SwitchClock:
+    def __init__(self) -> None:
+        self.cur: Optional[VirtualClock] = None
+
+    def time(self) -> float:
+        # called from library frames: the classification looks one frame further up
+        c = self.cur
+        c.calls += 1
+        frame = sys._getframe(1)
+        return c._time_for(frame)
 
 
 _SEAM_MODULES = (
